@@ -52,6 +52,9 @@ func TestConformance(t *testing.T) {
 			if err != nil {
 				tb.Fatal(err)
 			}
+			if strings.HasSuffix(d, "+ReadFile") {
+				return WithReadFile{fs}
+			}
 			return fs
 		}
 	}
